@@ -36,6 +36,19 @@ def scenario(name, client=None, seed=0):
         return v.run_client(cur, base, estimands=("turnout", "dem"), pi_method="nonparametric", prediction_intervals=(0.7, 0.9), aggregates=("postal_code", "county_fips", "unit"), features=("f1",), fixed_effects={"county_classification": ["all"]}, client=client)
     if name == "gaussian":
         return v.run_client(cur, base, estimands=("turnout",), pi_method="gaussian", prediction_intervals=(0.9,), aggregates=("postal_code", "county_classification", "unit"), client=client)
+    if name == "bootstrap_districts":
+        # a district election (office H, precinct-district units, three districts per state): the contests of the bootstrap are
+        # states AND districts, the seeded generator assigns its draws to them by column position
+        base = v.synthetic(160, seed=seed + 1, district=True, unit_type="precinct-district")
+        d = [f"d{(i // 2) % 3}" for i in range(len(base))]
+        base["district"] = d
+        base["geographic_unit_fips"] = [f"{dd}_{c_}_{i:04d}" for i, (dd, c_) in enumerate(zip(d, base.county_fips))]
+        cur = v.feed(base, [100] * 110 + [35] * 50, seed=seed)
+        c, r = v.run_client(cur, base, estimands=("margin",), pi_method="bootstrap", prediction_intervals=(0.9,), aggregates=("postal_code", "district", "unit"), features=("baseline_normalized_margin",), model_parameters={"B": 25}, office="H", unit_type="precinct-district", client=client)
+        s = c.get_national_summary_votes_estimates(None, 0, [0.9])
+        r = dict(r)
+        r["nat_sum_data"] = s
+        return c, r
     if name == "bootstrap":
         c, r = v.run_client(cur, base, estimands=("margin",), pi_method="bootstrap", prediction_intervals=(0.9,), aggregates=("postal_code", "unit"), features=("baseline_normalized_margin",), model_parameters={"B": 25}, client=client)
         s = c.get_national_summary_votes_estimates(None, 0, [0.9])
@@ -49,7 +62,7 @@ if a.child:
     print(json.dumps({"digest": digest(r)}))
     sys.exit(0)
 
-names = ["nonparametric", "gaussian", "bootstrap"]
+names = ["nonparametric", "gaussian", "bootstrap", "bootstrap_districts"]
 viol, samples, evals = [], [], 0
 for nm in names:
     c1, r1 = scenario(nm, seed=a.seed)
